@@ -37,6 +37,12 @@ pub struct LogRec {
     /// harness step at which the io was issued / completed (completed == None: still pending or lost)
     pub issued_at: u64,
     pub completed_at: Option<u64>,
+    /// global completion counter value when the io completed (total order of completions)
+    pub completed_order: Option<u64>,
+    /// one logical clock for issues and completions: A is in flight when B is issued iff
+    /// A.issued_clock < B.issued_clock and (A.completed_clock is None or > B.issued_clock)
+    pub issued_clock: u64,
+    pub completed_clock: Option<u64>,
     pub failed: bool,
     /// write payload (kept for attribution and for tear simulation)
     #[serde(skip)]
@@ -67,6 +73,8 @@ struct DiskInner {
     next_seq: u64,
     step: u64,
     progress: u64,
+    completions: u64,
+    clock: u64,
     /// fail every io issued from now on (C03/C09 error paths)
     fail_all: bool,
 }
@@ -191,8 +199,14 @@ impl SimDisk {
         let p = g.pending.remove(i);
         g.progress += 1;
         let step = g.step;
+        g.completions += 1;
+        g.clock += 1;
+        let order = g.completions;
+        let clock = g.clock;
         if let Some(rec) = g.log.iter_mut().rev().find(|r| r.seq == p.seq) {
             rec.completed_at = Some(step);
+            rec.completed_order = Some(order);
+            rec.completed_clock = Some(clock);
             rec.failed = fail;
         }
         let completion = if fail {
@@ -364,13 +378,26 @@ impl IoEngine for SimIoEngine {
         let in_range = offset + len <= g.parts[part].len();
         let fail_now = g.fail_all || !in_range;
         let hold = g.hold;
+        g.clock += 1;
+        let issued_clock = g.clock;
+        let corder = if hold && !fail_now {
+            None
+        } else {
+            g.completions += 1;
+            g.clock += 1;
+            Some(g.completions)
+        };
+        let completed_clock = corder.map(|_| g.clock);
         g.log.push(LogRec {
+            issued_clock,
+            completed_clock,
             seq,
             kind: IoKind::Read,
             part,
             offset,
             len,
             issued_at: step,
+            completed_order: corder,
             completed_at: if hold && !fail_now { None } else { Some(step) },
             failed: fail_now,
             data: None,
@@ -424,13 +451,26 @@ impl IoEngine for SimIoEngine {
         let in_range = offset + len <= g.parts[part].len();
         let fail_now = g.fail_all || !in_range;
         let hold = g.hold;
+        g.clock += 1;
+        let issued_clock = g.clock;
+        let corder = if hold && !fail_now {
+            None
+        } else {
+            g.completions += 1;
+            g.clock += 1;
+            Some(g.completions)
+        };
+        let completed_clock = corder.map(|_| g.clock);
         g.log.push(LogRec {
+            issued_clock,
+            completed_clock,
             seq,
             kind: IoKind::Write,
             part,
             offset,
             len,
             issued_at: step,
+            completed_order: corder,
             completed_at: if hold && !fail_now { None } else { Some(step) },
             failed: fail_now,
             data: Some(data.clone()),
